@@ -25,7 +25,20 @@ struct State {
     ext: u32,
 }
 
+const NSTATES: usize = 6;
+
 fn mk(variant: usize) -> Option<State> {
+    // objects that never went through the parser: the 12-byte header-only packet of ParsedPacket::empty() and a
+    // synthesised query
+    if variant == 4 {
+        let pp = ParsedPacket::empty();
+        return Some(State { rest: pp.packet()[12..].to_vec(), pp, ext: 0 });
+    }
+    if variant == 5 {
+        let pp = r#gen::query(b"example.com", Type::A, Class::IN).ok()?;
+        let ext = (pp.ext_flags.unwrap_or(0) as u32) << 16;
+        return Some(State { rest: pp.packet()[12..].to_vec(), pp, ext });
+    }
     let b = body(variant);
     let pp = lib_parse(&b).ok()?.ok()?;
     let ext = (pp.ext_flags.unwrap_or(0) as u32) << 16;
@@ -133,8 +146,8 @@ fn run_ops(ctx: &mut Ctx, st: &mut State, w: u16, id: u16, ops: &mut dyn Iterato
 
 pub fn run(ctx: &mut Ctx) {
     let thorough = ctx.tier == "thorough";
-    let mut states: Vec<State> = (0..4).filter_map(mk).collect();
-    if states.len() != 4 {
+    let mut states: Vec<State> = (0..NSTATES).filter_map(mk).collect();
+    if states.len() != NSTATES {
         ctx.count("harness_error");
         ctx.notes.push("harness: C12 body not accepted by the parser".into());
         return;
@@ -143,7 +156,7 @@ pub fn run(ctx: &mut Ctx) {
     for w in ctx.phase("word-x-arg8", 65536) {
         ctx.begin_case(w);
         let w = w as u16;
-        let st = &mut states[(w as usize) % 4];
+        let st = &mut states[(w as usize) % NSTATES];
         let id = w.rotate_left(5) ^ 0x5aa5;
         let mut ops = (0..=255u8)
             .map(Op::Opcode)
@@ -161,7 +174,7 @@ pub fn run(ctx: &mut Ctx) {
         ctx.begin_case(w);
         let mut rng = Rng::for_case(ctx.seed, "c12-flags", 0, w);
         let w = w as u16;
-        let st = &mut states[(w as usize) % 4];
+        let st = &mut states[(w as usize) % NSTATES];
         let id = !w;
         let singles = (0..32).map(|b| Op::Flags(1u32 << b));
         let extremes = [0u32, u32::MAX, 0xffff_0000, 0x0000_ffff, 0x87f0, 0x780f, 0x8000_0000, 0x7fff_ffff]
@@ -184,7 +197,7 @@ pub fn run(ctx: &mut Ctx) {
         let mut rng = Rng::for_case(ctx.seed, "c12-lo", 0, lo);
         let words: Vec<u16> = (0..64).map(|i| if i < 16 { 1u16 << i } else { rng.u16() }).collect();
         for w in words {
-            let st = &mut states[(w as usize) % 4];
+            let st = &mut states[(w as usize) % NSTATES];
             let hi = rng.u32() & 0xffff_0000;
             let mut ops = [Op::Flags(hi | lo as u32)].into_iter();
             run_ops(ctx, st, w, 0x0f0f, &mut ops);
@@ -197,7 +210,7 @@ pub fn run(ctx: &mut Ctx) {
         for _ in 0..64 {
             let w = rng.u16();
             let id = rng.u16();
-            let st = &mut states[(w as usize) % 4];
+            let st = &mut states[(w as usize) % NSTATES];
             let mut ops = [Op::Tid(t as u16)].into_iter();
             run_ops(ctx, st, w, id, &mut ops);
         }
@@ -209,7 +222,7 @@ pub fn run(ctx: &mut Ctx) {
         for w in ctx.phase("via-table", 65536) {
             ctx.begin_case(w);
             let w = w as u16;
-            let st = &mut states[(w as usize) % 4];
+            let st = &mut states[(w as usize) % NSTATES];
             let mut bad: Option<String> = None;
             let mut n = 0u64;
             for a in [0u8, 1, 4, 5, 9, 15, 16, 0x83, 0xff, (w >> 3) as u8] {
